@@ -11,19 +11,21 @@
 (***************************************************************************)
 EXTENDS Naturals, Sequences, FiniteSets, SequencesExt, TLC
 
-\* a range record: [start, length, marker]; marker = TRUE means "BMFF offset marker at start"
+\* a range record: [start, length, marker, moff].  Exclusion mode: marker = TRUE is a pure "BMFF offset marker at
+\* moff" (the SDK builds it as HashRange(start = moff, length = 1)).  Inclusion mode: marker = TRUE attaches the
+\* 8-byte offset moff in front of the bytes of that inclusion range.
 Err == << <<"err">> >>   \* the error outcome (a selection no success can equal)
 IsRange(r) == r.start \in Nat /\ r.length \in Nat /\ r.marker \in BOOLEAN
 
 Idx(rs)      == 1..Len(rs)
 Plain(rs)    == {k \in Idx(rs) : ~rs[k].marker}
-Markers(rs)  == {rs[k].start : k \in {j \in Idx(rs) : rs[j].marker}}
+Markers(rs)  == {rs[k].moff : k \in {j \in Idx(rs) : rs[j].marker}}
 PastEnd(len, rs) == \E k \in Idx(rs) : rs[k].start + rs[k].length > len
 Excluded(p, rs)  == \E k \in Plain(rs) : rs[k].start <= p /\ p < rs[k].start + rs[k].length
 
 \* ------------------------------------------------------------------ property layer
 \* Exclusion mode: walk the elementary intervals between all range boundaries and markers.
-CutPoints(len, rs) == {0, len} \cup {rs[k].start : k \in Idx(rs)} \cup {rs[k].start + rs[k].length : k \in Plain(rs)}
+CutPoints(len, rs) == {0, len} \cup {rs[k].start : k \in Plain(rs)} \cup Markers(rs) \cup {rs[k].start + rs[k].length : k \in Plain(rs)}
 SortedCuts(len, rs) == SetToSortSeq({c \in CutPoints(len, rs) : c <= len}, LAMBDA a, b : a < b)
 RECURSIVE WalkExcl(_, _, _, _)
 WalkExcl(cuts, i, len, rs) ==
@@ -44,19 +46,21 @@ RefExcl(len, rs) == IF PastEnd(len, rs) THEN Err ELSE Norm(WalkExcl(SortedCuts(l
 StableSortByStart(rs) == SortSeq(rs, LAMBDA x, y : x.start < y.start)
 RECURSIVE WalkIncl(_)
 WalkIncl(rs) == IF rs = <<>> THEN <<>>
-                ELSE (IF Head(rs).length = 0 THEN <<>> ELSE << <<"b", Head(rs).start, Head(rs).start + Head(rs).length>> >>)
+                ELSE (IF Head(rs).length = 0 THEN <<>>
+                      ELSE (IF Head(rs).marker THEN << <<"m", Head(rs).moff>> >> ELSE <<>>)
+                           \o << <<"b", Head(rs).start, Head(rs).start + Head(rs).length>> >>)
                      \o WalkIncl(Tail(rs))
 RefIncl(len, rs) == IF PastEnd(len, rs) THEN Err ELSE WalkIncl(StableSortByStart(rs))
 
 RefSel(len, rs, excl) == IF excl THEN RefExcl(len, rs) ELSE RefIncl(len, rs)
 
 \* Inputs on which the statement is unambiguous (everything else is judged DRIFT only):
-\*  - the stream is not empty; markers lie inside the data; in inclusion mode no markers
+\*  - the stream is not empty; exclusion-mode markers lie inside the data
 \*  - inclusion ranges have pairwise distinct starts (order of equal starts is not specified)
 \*  - an inclusion list is not empty; no two markers at the same offset
 Unambiguous(len, rs, excl) ==
    /\ len > 0
-   /\ \A k \in Idx(rs) : rs[k].marker => (excl /\ rs[k].start < len /\ rs[k].length = 1)
+   /\ \A k \in Idx(rs) : (excl /\ rs[k].marker) => (rs[k].moff = rs[k].start /\ rs[k].start < len /\ rs[k].length = 1)
    /\ ~excl => \A i, j \in Idx(rs) : i # j => rs[i].start # rs[j].start
    /\ \A i, j \in Idx(rs) : (i # j /\ rs[i].marker /\ rs[j].marker) => rs[i].start # rs[j].start
    /\ ~excl => rs # <<>>     \* "no ranges" means "whole stream" in the API, whatever the mode
@@ -68,6 +72,8 @@ Unambiguous(len, rs, excl) ==
 \*  Q2 a marker sits in an excluded region that is not strictly between the first and the last included byte
 InclAt(p, len, rs) == p >= 0 /\ p < len /\ ~Excluded(p, rs)
 Q1(len, rs) == \E m \in Markers(rs) : InclAt(m, len, rs) /\ (~InclAt(m + 1, len, rs) \/ (m + 1) \in Markers(rs))
+\*  QI (inclusion mode) a one-byte inclusion range starts at an offset that some marker carries: hashed as a marker
+QI(len, rs) == \E k \in Idx(rs) : rs[k].length = 1 /\ rs[k].start \in Markers(rs)
 Q2(len, rs) == \E m \in Markers(rs) : m < len /\ Excluded(m, rs) /\
                   ~((\E p \in 0..(len - 1) : p < m /\ InclAt(p, len, rs)) /\ (\E p \in 0..(len - 1) : p > m /\ InclAt(p, len, rs)))
 
@@ -106,11 +112,19 @@ CodedExcl(len, rs) ==
   IF len < 1 THEN Err
   ELSE IF rs # <<>> /\ PastEnd(len, rs) THEN Err
   ELSE Norm(CodedTokens(len, rs, CodedRanges(len, rs)))
+RECURSIVE CodedInclTokens(_, _)
+CodedInclTokens(rs, ms) ==      \* a one-byte range whose start is a marker offset is hashed as that marker
+  IF rs = <<>> THEN <<>>
+  ELSE LET r == Head(rs) IN
+       (IF r.length = 0 THEN <<>>
+        ELSE (IF r.marker THEN << <<"m", r.moff>> >> ELSE <<>>)
+             \o (IF r.length = 1 /\ r.start \in ms THEN << <<"m", r.start>> >> ELSE << <<"b", r.start, r.start + r.length>> >>))
+       \o CodedInclTokens(Tail(rs), ms)
 CodedIncl(len, rs) ==
   IF len < 1 THEN Err
   ELSE IF rs # <<>> /\ PastEnd(len, rs) THEN Err
   ELSE IF rs = <<>> THEN << <<"b", 0, len>> >>
-  ELSE WalkIncl(SortedByStart(rs))
+  ELSE CodedInclTokens(SortedByStart(rs), Markers(rs))
 CodedSel(len, rs, excl) == IF excl THEN CodedExcl(len, rs) ELSE CodedIncl(len, rs)
 
 \* expand a selection into the token sequence (used to compare selections exactly)
